@@ -382,6 +382,108 @@ def _matrix_codec(tree: ast.Module) -> dict:
     return {'pack': slots, 'unpack': cells, 'line': w.lineno}
 
 
+# ------------------------------------------------------------------------------------------------ header / unicode modes
+UMODES = ['ascii', 'format', 'silent']
+
+
+def _mode_pred(node: ast.AST, where) -> dict:
+    """A test over the string-valued parameter `unicode` -> truth value for each of the three modes."""
+    if isinstance(node, ast.Compare) and isinstance(node.left, ast.Name) and node.left.id == 'unicode' and len(node.ops) == 1:
+        op, rhs = node.ops[0], node.comparators[0]
+        if isinstance(op, (ast.Eq, ast.NotEq)) and isinstance(rhs, ast.Constant) and isinstance(rhs.value, str):
+            return {m: (m == rhs.value) == isinstance(op, ast.Eq) for m in UMODES}
+        if isinstance(op, (ast.In, ast.NotIn)) and isinstance(rhs, (ast.Tuple, ast.List, ast.Set)) \
+                and all(isinstance(e, ast.Constant) and isinstance(e.value, str) for e in rhs.elts):
+            vals = {e.value for e in rhs.elts}
+            return {m: (m in vals) == isinstance(op, ast.In) for m in UMODES}
+    if isinstance(node, ast.BoolOp):
+        parts = [_mode_pred(v, where) for v in node.values]
+        f = all if isinstance(node.op, ast.And) else any
+        return {m: f(p_[m] for p_ in parts) for m in UMODES}
+    if isinstance(node, ast.UnaryOp) and isinstance(node.op, ast.Not):
+        return {m: not v for m, v in _mode_pred(node.operand, where).items()}
+    _fail(f'unrecognised test on the unicode mode `{ast.unparse(node)}`', where)
+
+
+def _ifexp_modes(node: ast.AST, yes, no, where) -> dict:
+    """`YES if <mode test> else NO` -> per mode: is it YES?"""
+    if isinstance(node, ast.IfExp) and isinstance(node.body, ast.Constant) and isinstance(node.orelse, ast.Constant):
+        pred = _mode_pred(node.test, where)
+        if node.body.value in yes and node.orelse.value in no:
+            return pred
+        if node.body.value in no and node.orelse.value in yes:
+            return {m: not v for m, v in pred.items()}
+    _fail(f'unrecognised mode-dependent expression `{ast.unparse(node)}`', where)
+
+
+def _ifexp_bool(node: ast.AST, yes, no, where) -> dict:
+    """`YES if unicode else NO` over the boolean `unicode` of the readers -> {True: is YES?, False: ...}."""
+    if isinstance(node, ast.IfExp) and isinstance(node.body, ast.Constant) and isinstance(node.orelse, ast.Constant):
+        t = node.test
+        neg = False
+        if isinstance(t, ast.UnaryOp) and isinstance(t.op, ast.Not):
+            t, neg = t.operand, True
+        if isinstance(t, ast.Name) and t.id == 'unicode':
+            if node.body.value in yes and node.orelse.value in no:
+                return {True: not neg, False: neg}
+            if node.body.value in no and node.orelse.value in yes:
+                return {True: neg, False: not neg}
+    _fail(f'unrecognised expression `{ast.unparse(node)}`', where)
+
+
+UTF8, ASCII = ('utf8', 'utf-8', 'UTF-8', 'utf_8'), ('ascii', 'ASCII')
+
+
+def _writer_modes(fn: ast.FunctionDef) -> tuple[dict, dict]:
+    """(header flag per mode, utf8 per mode) of export_binary / export_kv2."""
+    flags = [n for n in ast.walk(fn) if isinstance(n, ast.IfExp) and isinstance(n.body, ast.Constant) and isinstance(n.orelse, ast.Constant)
+             and {n.body.value, n.orelse.value} == {b'unicode_', b''}]
+    if not flags:
+        flag = {m: False for m in UMODES}         # the marker is never written
+    elif all(ast.dump(f) == ast.dump(flags[0]) for f in flags):
+        flag = _ifexp_modes(flags[0], (b'unicode_',), (b'',), fn)
+    else:
+        _fail(f'{fn.name}: different unicode_ marker expressions', fn)
+    enc = [n for n in ast.walk(fn) if isinstance(n, ast.Assign) and ast.unparse(n.targets[0]) == 'encoding']
+    if len(enc) != 1:
+        _fail(f'{fn.name}: expected one `encoding = ...`', fn)
+    return flag, _ifexp_modes(enc[0].value, UTF8, ASCII, enc[0])
+
+
+def _header_cfg(tree: ast.Module) -> dict:
+    out = {}
+    out['hb_flag'], out['hb_utf8'] = _writer_modes(_func(tree, 'Element', 'export_binary'))
+    out['hk_flag'], out['hk_utf8'] = _writer_modes(_func(tree, 'Element', 'export_kv2'))
+    p = _func(tree, 'Element', 'parse')
+    # the header regex must capture the optional marker as its first group, bound to unicode_flag
+    regs = [n for n in ast.walk(p) if isinstance(n, ast.Constant) and isinstance(n.value, bytes) and b'encoding' in n.value]
+    if len(regs) != 1 or not regs[0].value.startswith(rb'<!--\s*dmx\s+encoding\s+(unicode_)?('):
+        _fail('parse: the header pattern does not start with the optional (unicode_) group', p)
+    if not any(isinstance(n, ast.Assign) and ast.unparse(n.targets[0]).startswith('(unicode_flag,') and ast.unparse(n.value) == 'match.groups()'
+               for n in ast.walk(p)):
+        _fail('parse: `unicode_flag, ... = match.groups()` not found', p)
+    sets = [n for n in ast.walk(p) if isinstance(n, ast.If) and ast.unparse(n.test) == 'unicode_flag']
+    if not sets:
+        out['flag_sets'] = False
+    elif len(sets) == 1 and [ast.unparse(x) for x in sets[0].body] == ['unicode = True'] and not sets[0].orelse:
+        out['flag_sets'] = True
+    else:
+        _fail('parse: unrecognised use of unicode_flag', p)
+    wr = [n for n in ast.walk(p) if isinstance(n, ast.Call) and ast.unparse(n.func) == 'io.TextIOWrapper']
+    if len(wr) != 1 or [k.arg for k in wr[0].keywords] != ['encoding'] or [ast.unparse(a) for a in wr[0].args] != ['file']:
+        _fail('parse: `io.TextIOWrapper(file, encoding=...)` not recognised', p)
+    out['kv2_utf8'] = _ifexp_bool(wr[0].keywords[0].value, UTF8, ASCII, wr[0])
+    pb = [n for n in ast.walk(p) if isinstance(n, ast.Call) and ast.unparse(n.func) == 'cls.parse_bin']
+    if len(pb) != 1 or [ast.unparse(a) for a in pb[0].args] != ['file', 'enc_vers', 'unicode'] or pb[0].keywords:
+        _fail('parse: `cls.parse_bin(file, enc_vers, unicode)` not recognised', p)
+    b = _func(tree, 'Element', 'parse_bin')
+    enc = [n for n in ast.walk(b) if isinstance(n, ast.Assign) and ast.unparse(n.targets[0]) == 'encoding']
+    if len(enc) != 1:
+        _fail('parse_bin: expected one `encoding = ...`', b)
+    out['bin_utf8'] = _ifexp_bool(enc[0].value, UTF8, ASCII, enc[0])
+    return out
+
+
 # ------------------------------------------------------------------------------------------------ value strings (KV2)
 VEC_TEXT = {'vec2': 'TVec2', 'vec3': 'TVec3', 'vec4': 'TVec4', 'angle': 'TAngle', 'quaternion': 'TQuat'}
 
@@ -835,6 +937,7 @@ def translate() -> tuple[str, dict]:
     pb = _parse_bin(_func(tree, 'Element', 'parse_bin'))
     eb = _export_binary(_func(tree, 'Element', 'export_binary'))
     vtext = _value_text(tree)
+    hdr = _header_cfg(tree)
     kv2 = _export_kv2(_func(tree, 'Element', '_export_kv2'))
     kv2_refs = _kv2_ref_tables(_func(tree, 'Element', '_export_kv2'))
     kv2_tok_kw = _kv2_tokenizer_kwargs(_func(tree, 'Element', 'parse_kv2'))
@@ -868,16 +971,17 @@ def translate() -> tuple[str, dict]:
                 enc_read={k: v[0] for k, v in pb['enc_read'].items()}, enc_write={k: v[0] for k, v in eb['enc_write'].items()},
                 enc_read_lines={k: v[1] for k, v in pb['enc_read'].items()},
                 formats=fmt_rows, time_codec=tcodec, matrix_codec=mcodec, ctor=ctor_rows,
-                value_text=vtext, kv2_fields=kv2, kv2_ref_tables=kv2_refs, kv2_tokenizer_kwargs=kv2_tok_kw, kv2_keyword_types_at_root=kv2_kw_roots, kv2_keyword_roots_line=kv2_kw_roots_line, kv2_stub_keeps_uuid=kv2_stub, kv2_stub_line=kv2_stub_line, kv1=kv1,
+                value_text=vtext, header=hdr, kv2_fields=kv2, kv2_ref_tables=kv2_refs, kv2_tokenizer_kwargs=kv2_tok_kw, kv2_keyword_types_at_root=kv2_kw_roots, kv2_keyword_roots_line=kv2_kw_roots_line, kv2_stub_keeps_uuid=kv2_stub, kv2_stub_line=kv2_stub_line, kv1=kv1,
                 digests={f: ast_digest(_func(tree, 'Element', f)) for f in
                          ('parse_bin', 'export_binary', 'export_kv2', '_export_kv2', 'parse_kv2', '_parse_kv2_element')})
 
     def encfun(d):
         return 'fun s => match s with ' + ' | '.join(f'{s} => {d[s][0]}' for s in SITES) + ' end'
     b = lambda x: 'true' if x else 'false'
+    umfun = lambda d: ('fun m => match m with UAscii => ' + b(d['ascii']) + ' | UFormat => ' + b(d['format']) + ' | USilent => ' + b(d['silent']) + ' end')
     lines = [
         '(* GENERATED by translate/c14_dmx.py from /repo/src/srctools/dmx.py. Do not edit. *)',
-        'From Coq Require Import NArith ZArith List String.', 'From SV Require Import Num.Dec6 Fmt.DmxCodes Fmt.DmxKv1 Fmt.DmxScalar Fmt.DmxKv2 Fmt.DmxValText.', 'Import ListNotations.',
+        'From Coq Require Import NArith ZArith List String.', 'From SV Require Import Num.Dec6 Fmt.DmxCodes Fmt.DmxKv1 Fmt.DmxScalar Fmt.DmxKv2 Fmt.DmxValText Fmt.DmxHeader.', 'Import ListNotations.',
         'Open Scope N_scope.',
         'Definition gen_cfg : dmxcfg := {|',
         '  code_table := [' + '; '.join(f'({c}, {i})' for c, i, _ in table) + '];',
@@ -899,6 +1003,16 @@ def translate() -> tuple[str, dict]:
         '  sc_mat_unpack := [' + '; '.join(f'({r}, {c}, {i})' for r, c, i in mcodec['unpack']) + '];',
         '|}.',
         'Definition gen_ctor_classes : list (vtype * string) := [' + '; '.join(f'({c}, "{k}"%string)' for c, k in ctor_rows) + '].',
+        '(* the three unicode modes: header marker and codec of the writers, codec selection of the readers *)',
+        'Definition gen_hdr : hdrcfg := {|',
+        '  hb_flag := ' + umfun(hdr['hb_flag']) + ';',
+        '  hb_utf8 := ' + umfun(hdr['hb_utf8']) + ';',
+        '  hk_flag := ' + umfun(hdr['hk_flag']) + ';',
+        '  hk_utf8 := ' + umfun(hdr['hk_utf8']) + ';',
+        f'  hp_flag_sets_unicode := {b(hdr["flag_sets"])};',
+        f'  hp_bin_utf8 := fun u => if u then {b(hdr["bin_utf8"][True])} else {b(hdr["bin_utf8"][False])};',
+        f'  hp_kv2_utf8 := fun u => if u then {b(hdr["kv2_utf8"][True])} else {b(hdr["kv2_utf8"][False])};',
+        '|}.',
         '(* value strings of KeyValues2: _fmt_float, the vector / colour texts, the scalar aliases *)',
         f'Definition gen_float_fmt : fmt_cfg := {{| adds_zero := {b(vtext["float_fmt"]["adds_zero"])}; places := {vtext["float_fmt"]["places"]}; '
         f'strips := {b(vtext["float_fmt"]["strips"])}; neg_zero_fix := false |}}.',
